@@ -731,11 +731,41 @@ func (c *Ctx) typeConstraint(t types.Type, v *Term) *Term {
 	if lo, hi, ok := intRange(t); ok {
 		return mk(SBool, fmt.Sprintf("(and (<= %s %s) (<= %s %s))", lo, v.S, v.S, hi))
 	}
-	switch t.Underlying().(type) {
+	return c.typeConstraintD(t, v, 0)
+}
+
+func (c *Ctx) typeConstraintD(t types.Type, v *Term, depth int) *Term {
+	if lo, hi, ok := intRange(t); ok {
+		return mk(SBool, fmt.Sprintf("(and (<= %s %s) (<= %s %s))", lo, v.S, v.S, hi))
+	}
+	switch u := t.Underlying().(type) {
 	case *types.Slice:
-		return mk(SBool, fmt.Sprintf("(and (>= (s.len %s) 0) (>= (s.off %s) 0) (>= (s.arr %s) 0))", v.S, v.S, v.S))
+		// len is an int in Go: never above MaxInt64
+		return mk(SBool, fmt.Sprintf("(and (>= (s.len %s) 0) (<= (s.len %s) 9223372036854775807) (>= (s.off %s) 0) (>= (s.arr %s) 0))", v.S, v.S, v.S, v.S))
 	case *types.Pointer, *types.Map:
 		return mk(SBool, fmt.Sprintf("(>= %s 0)", v.S))
+	case *types.Struct:
+		// a struct value: the constraints of its fields (two levels are enough for the code under contract)
+		if depth >= 2 || u.NumFields() > 24 {
+			return tTrue
+		}
+		if !strings.HasPrefix(string(c.sortOf(t)), "S.") {
+			return tTrue // opaque or otherwise encoded struct
+		}
+		var parts []string
+		for i := 0; i < u.NumFields(); i++ {
+			fc := c.typeConstraintD(u.Field(i).Type(), c.structField(t, v, i), depth+1)
+			if fc != tTrue && fc.S != "true" {
+				parts = append(parts, fc.S)
+			}
+		}
+		switch len(parts) {
+		case 0:
+			return tTrue
+		case 1:
+			return mk(SBool, parts[0])
+		}
+		return mk(SBool, "(and "+strings.Join(parts, " ")+")")
 	}
 	return tTrue
 }
